@@ -271,11 +271,11 @@ pub fn run(ctx: &Ctx) -> Report {
         l.op_n("timestamp constructors", n);
     });
     // wl 4: zones, projection, comparison claims
-    run_cases(ctx, &mut rep, 4, ctx.n(10_000, 400_000), |l, rng, _| zone_workload(l, rng, ctx));
+    run_cases(ctx, &mut rep, 4, ctx.n(40_000, 800_000), |l, rng, _| zone_workload(l, rng, ctx));
     // wl 5: every entry returned by the local-time search (valid and gap entries, allocating and buffer-based),
     // on zones of every shape incl. leap seconds: the facade applies the field invariant to each of them
     let cfg = ZoneCfg::search();
-    run_cases(ctx, &mut rep, 5, ctx.n(10_000, 400_000), |l, rng, _| {
+    run_cases(ctx, &mut rep, 5, ctx.n(40_000, 800_000), |l, rng, _| {
         let z = gen_zone(rng, &cfg);
         let b = match build(&z) {
             Ok(b) => b,
